@@ -455,9 +455,23 @@ static void t_compact(void) {
 }
 static void t_pairs(void) {
     H3Index a = any_index(), b;
-    switch (vf_below(R, 4)) {
+    switch (vf_below(R, 6)) {
         case 0: b = any_index(); break;
         case 1: b = a; break;
+        case 4:
+        case 5: { /* a structural relative of a, whatever a is: the same bits with another finest digit (a "sibling", one of the two
+                   * possibly the centre child), another digit somewhere, or another base cell — pairs that agree in most of their
+                   * bits take the shortcuts that independent hostile values never reach */
+            int res = VF_RES(a), rr = res >= 1 && res <= 15 ? res : 1 + (int)vf_below(R, 15);
+            b = a;
+            switch (vf_below(R, 4)) {
+                case 0: a = vf_set_digit(a, rr, 0); b = vf_set_digit(b, rr, 1 + (int)vf_below(R, 6)); break;
+                case 1: b = vf_set_digit(b, rr, (int)vf_below(R, 8)); break;
+                case 2: b = vf_set_digit(b, 1 + (int)vf_below(R, 15), (int)vf_below(R, 8)); break;
+                default: b = (b & ~((uint64_t)0x7f << 45)) | ((uint64_t)vf_below(R, 128) << 45);
+            }
+            break;
+        }
         default: { /* something near a, when a is valid */
             H3Index d[19] = {0};
             b = (ref_is_valid_cell(a) && !gridDisk(a, 2, d)) ? d[vf_below(R, 19)] : any_index();
